@@ -7,8 +7,8 @@ package main
 // For every server configuration of the grid the real thruserv binary is
 // started and the repository's real client functions are used against it:
 // clienthttp.CreateSession, app.buildWebSocketURL + wsclient.Dial / ReadLoop /
-// Send for both roles, and ice.parseTurnServer on the turn_credentials the
-// client received. Keys of violations come from the configuration / input
+// Send for both roles, and the roles' own handleEnvelope / currentTurnServers plus
+// ice.parseTurnServer on the turn_credentials the client received. Keys of violations come from the configuration / input
 // class only.
 
 import (
@@ -483,6 +483,7 @@ type c16Run struct {
 	funcs      map[string]int // client function -> calls with a verdict
 	perCfg     []map[string]any
 	spellSeen  map[string]int
+	appSeen    map[string]int // "<spelling>|<role>" -> turn_credentials envelopes handed to the application layer of that role
 	idSeen     map[string]int
 	turnParsed int
 	cfgStarted int
@@ -785,16 +786,43 @@ func (rn *c16Run) checkTurnK(c *c16Cfg, prefix, fixedStep string, cr *c16Role, i
 			map[string]any{"servers": creds.Servers, "configured": c.Turn.Args})
 		return false
 	}
-	for i, raw := range creds.Servers {
-		want := c.Turn.Want[i]
+	// the application layer of the role: the received envelope goes through the real
+	// handleEnvelope of a fresh SnapshotSender / snapshotReceiver; judged is the relay list
+	// that role then puts into ice.ProberConfig.TurnServers (currentTurnServers)
+	reached := app.VerifC16RelaysReachingProber(cr.role, env, c16Logger)
+	rn.fn("app.handleEnvelope(turn_credentials)+currentTurnServers:" + cr.role)
+	rn.mu.Lock()
+	rn.appSeen[c.Turn.Class+"|"+cr.role]++
+	rn.mu.Unlock()
+	if len(reached) != len(creds.Servers) {
+		rn.violate(c, keyStep, fmt.Sprintf("the server minted %d TURN relay URLs for the %s but %d reach the prober configuration of that role (handleEnvelope -> currentTurnServers)", len(creds.Servers), cr.role, len(reached)),
+			map[string]any{"minted": creds.Servers, "reaching_prober_config": reached, "configured": c.Turn.Args, "peer_id": cr.peerID, "role": cr.role})
+		return false
+	}
+	e.R.Count("turn_credentials_through_app_layer:" + cr.role)
+	usedWant := make([]bool, len(c.Turn.Want))
+	for i, raw := range reached {
 		p, err := ice.VerifParseTurnServer(raw)
+		// the relay list is a set: an entry is compared with the configured relay at its own
+		// position when it matches that one, otherwise with any configured relay not yet matched
+		wi := i
+		if err == nil && (usedWant[i] || p.Addr != c.Turn.Want[i].Addr || p.UseTLS != c.Turn.Want[i].TLS) {
+			for k := range c.Turn.Want {
+				if !usedWant[k] && p.Addr == c.Turn.Want[k].Addr && p.UseTLS == c.Turn.Want[k].TLS {
+					wi = k
+					break
+				}
+			}
+		}
+		usedWant[wi] = true
+		want := c.Turn.Want[wi]
 		rn.fn("ice.parseTurnServer")
 		rn.mu.Lock()
 		rn.turnParsed++
 		rn.spellSeen[c.Turn.Class]++
 		rn.idSeen[idClass]++
 		rn.mu.Unlock()
-		det := map[string]any{"minted_url": raw, "configured": c.Turn.Args, "peer_id": cr.peerID, "role": cr.role,
+		det := map[string]any{"minted_url": raw, "minted_list": creds.Servers, "configured": c.Turn.Args, "peer_id": cr.peerID, "role": cr.role,
 			"parsed": p, "want_addr": want.Addr, "want_tls": want.TLS}
 		if err != nil {
 			det["error"] = err.Error()
@@ -962,7 +990,9 @@ func (rn *c16Run) runCfg(idx int, c *c16Cfg, r *vk.Rng, thruHost bool) {
 	}
 	obs["server_alive_at_end"] = srv.Alive()
 	if !srv.Alive() {
-		rn.violate(c, "server-died", "thruserv exited while the clients were using it", map[string]any{"log_tail": srv.LogTail(1500)})
+		if info, outside := rn.servGone(c, "server-died", srv); !outside {
+			rn.violate(c, "server-died", "thruserv exited while the clients were using it", map[string]any{"log_tail": srv.LogTail(1500), "exit": info})
+		}
 	}
 	rn.mu.Lock()
 	if len(rn.perCfg) < 400 {
@@ -1059,9 +1089,9 @@ func (rn *c16Run) thruHost(c *c16Cfg, idx int, obs map[string]any) {
 
 func runC16(e *Env) {
 	r := vk.NewRng(e.Seed ^ vk.HashStr("c16"+e.Tier))
-	rn := &c16Run{e: e, singleFail: map[string]bool{}, funcs: map[string]int{}, spellSeen: map[string]int{}, idSeen: map[string]int{},
+	rn := &c16Run{e: e, singleFail: map[string]bool{}, funcs: map[string]int{}, spellSeen: map[string]int{}, appSeen: map[string]int{}, idSeen: map[string]int{},
 		histRan: map[string]int{}, histDone: map[string]int{}, concN: map[int]int{}}
-	e.R.Rule = "one case = the real thruserv started with one configuration (each documented limit/timeout flag at default|small|0 one at a time, TURN issuing on/off/half-configured; thorough adds every pair of factors at every level pair plus seeded all-factor rows) and the real client functions run against it (clienthttp.CreateSession, app.buildWebSocketURL + wsclient.Dial/ReadLoop/Send as host and as receiver, ice.parseTurnServer on the received turn_credentials over --turn-server spellings x peer-id character classes); history stage: per configuration one more server per order, an order being a sequence of creates / host connects / receiver connects / envelopes / session ends over k=2..3 sessions that share the server (all created first; interleaved; late receiver joining an old session after newer ones exist; receivers before hosts; an earlier session ended; seeded random interleavings), small limits sized to exactly what the order does; every call must succeed and land in its own session; concurrent stage: per configuration (and per TURN URL spelling) rounds in which 8-16 clients of both roles over 2-3 sessions are released together from a start barrier, each judged by the same per-client oracle (own connect, own session, credentials minted for its own peer id); refused-requests stage: per configuration one server whose history contains requests of every refusal reason thruserv has (/ws: plain GET, wrong version, missing key, POST, unknown join code, missing/bad parameters, max_receivers above the limit, receiver / socket / connect-bucket limit reached; /session: GET, bad max_receivers, above the limit, session / create-bucket limit reached) between documented-valid creates, connects and envelopes, limits sized to the valid operations only; a case counts when a client function returned a verdict against a started server; distinct by (flag vector, function/role, URL spelling, peer-id class, history order, operation)"
+	e.R.Rule = "one case = the real thruserv started with one configuration (each documented limit/timeout flag at default|small|0 one at a time, TURN issuing on/off/half-configured; thorough adds every pair of factors at every level pair plus seeded all-factor rows) and the real client functions run against it (clienthttp.CreateSession, app.buildWebSocketURL + wsclient.Dial/ReadLoop/Send as host and as receiver, the real handleEnvelope + currentTurnServers of both client roles on the received turn_credentials and ice.parseTurnServer on what reaches the prober configuration, over --turn-server spellings x peer-id character classes); idle-hold observation: per --ws-idle-timeout 0 / 2m / default one server on which a host alone and a host + receiver wait 76 s without sending, then must still be joinable / able to exchange envelopes; history stage: per configuration one more server per order, an order being a sequence of creates / host connects / receiver connects / envelopes / session ends over k=2..3 sessions that share the server (all created first; interleaved; late receiver joining an old session after newer ones exist; receivers before hosts; an earlier session ended; seeded random interleavings), small limits sized to exactly what the order does; every call must succeed and land in its own session; concurrent stage: per configuration (and per TURN URL spelling) rounds in which 8-16 clients of both roles over 2-3 sessions are released together from a start barrier, each judged by the same per-client oracle (own connect, own session, credentials minted for its own peer id); refused-requests stage: per configuration one server whose history contains requests of every refusal reason thruserv has (/ws: plain GET, wrong version, missing key, POST, unknown join code, missing/bad parameters, max_receivers above the limit, receiver / socket / connect-bucket limit reached; /session: GET, bad max_receivers, above the limit, session / create-bucket limit reached) between documented-valid creates, connects and envelopes, limits sized to the valid operations only; a case counts when a client function returned a verdict against a started server; distinct by (flag vector, function/role, URL spelling, peer-id class, history order, operation)"
 	if _, err := os.Stat(filepath.Join(e.BinDir, "thruserv")); err != nil {
 		e.R.Inconcl("thruserv binary missing in " + e.BinDir)
 		e.R.Require(false, "thruserv binary not built")
@@ -1096,6 +1126,13 @@ func runC16(e *Env) {
 	stageOn := func(name string) bool { return only == "" || strings.Contains(only, name) }
 	if only != "" {
 		e.R.Require(false, "VERIF_C16_ONLY set: a subset of the stages ran")
+	}
+	// idle-hold observation (c16idle.go): started first, judged by its own goroutines when the hold
+	// has elapsed, waited for last - the other stages run during the hold
+	var idle *c16IdleStage
+	idleRng := vk.NewRng(e.Seed ^ vk.HashStr("c16idle")) // its own stream: the case lists of the other stages stay a function of (tier, seed) as before
+	if stageOn("idle") {
+		idle = rn.startIdleHolds(idleRng)
 	}
 	// singles first: their failures attribute the failures of multi-factor configurations
 	pdo := func(stage string, n, w int, fn func(i int)) {
@@ -1300,6 +1337,7 @@ func runC16(e *Env) {
 	e.R.SetExtra("client_function_calls", rn.funcs)
 	e.R.SetExtra("turn_spelling_classes_parsed", rn.spellSeen)
 	e.R.SetExtra("peer_id_classes_parsed", rn.idSeen)
+	e.R.SetExtra("turn_credentials_through_app_layer_by_spelling_and_role", rn.appSeen)
 	e.R.SetExtra("turn_urls_parsed", rn.turnParsed)
 	e.R.SetExtra("single_factor_failures", func() []string {
 		var k []string
@@ -1319,12 +1357,25 @@ func runC16(e *Env) {
 	}
 	e.R.SetExtra("flag_levels", flagsDoc)
 
+	if idle != nil {
+		tIdle := time.Now()
+		idle.wait()
+		stageTimes["waited_for_idle_hold_after_the_other_stages_s"] = time.Since(tIdle).Seconds()
+		idle.report(rn)
+	}
 	e.R.Require(rn.cfgStarted >= len(singles)*9/10, fmt.Sprintf("only %d of %d single-factor configurations started", rn.cfgStarted, len(singles)))
 	e.R.Require(rn.funcs["clienthttp.CreateSession"] >= len(singles), "CreateSession was not exercised on every configuration")
 	e.R.Require(rn.funcs["wsclient.Dial"] >= 2*len(singles)*8/10, "too few host/receiver connects ran")
 	e.R.Require(rn.turnParsed >= 3*len(c16TurnSpellings), "too few turn_credentials were parsed")
 	e.R.Require(len(rn.spellSeen) >= len(c16TurnSpellings)*8/10, "too few TURN URL spellings reached the parser")
 	e.R.Require(len(rn.idSeen) >= len(c16IDClasses)*8/10, "too few peer-id classes reached the parser")
+	if stageOn("grid") {
+		for _, t := range c16TurnSpellings {
+			for _, role := range []string{"sender", "receiver"} {
+				e.R.Require(rn.appSeen[t.Class+"|"+role] >= 1, fmt.Sprintf("no turn_credentials of spelling %q went through the application layer of the %s", t.Class, role))
+			}
+		}
+	}
 	e.R.Require(rn.histStarted >= (len(hSingles)+len(hMulti))*9/10, fmt.Sprintf("only %d of %d history servers started", rn.histStarted, len(hSingles)+len(hMulti)))
 	for _, o := range c16FixedOrders {
 		e.R.Require(rn.histDone[o.Name] >= len(singles)*8/10,
